@@ -30,5 +30,6 @@ def run(col, configs, tier):
         guarded(col, P.rule_zero_shortcircuit, facts)
         guarded(col, X.rule_sticky_scans, facts)
         guarded(col, X.rule_hi_truncation, facts)
+        guarded(col, X.rule_binary_factor, facts)
         guarded(col, X.rule_rte_window, facts)
         guarded(col, X.rule_error_accounting, facts)
